@@ -257,6 +257,44 @@ func c09(r *core.Run) {
 			matches = append(matches, c)
 		}
 	}
+	// the covering test is applied to every other pattern: no condition that depends on the
+	// patterns' text may stand between the loops and the Matches call
+	for _, f2 := range p.Helpers(sub) {
+		for _, c := range core.Calls(f2) {
+			cal := c.Common().StaticCallee()
+			if cal == nil || cal.Name() != "Matches" || cal.Signature.Recv() == nil || core.TypeName(cal.Signature.Recv().Type()) != "Pattern" {
+				continue
+			}
+			bad := ""
+			for _, ed := range dominatingEdges(c) {
+				cnd, _ := ed.Norm()
+				if contentDependent(cnd, 0) {
+					bad = describeCond(ed)
+				}
+			}
+			// disjunctive pre-filters dominate by no single edge: within the iteration, a
+			// text-dependent branch placed before the test must not have a successor that bypasses it
+			if h := nearestLoopHead(f2, c.Block()); h != nil {
+				noStop := func(*ssa.BasicBlock) bool { return false }
+				bar := map[*ssa.BasicBlock]bool{h: true}
+				for _, b := range f2.Blocks {
+					iff, ok := b.Instrs[len(b.Instrs)-1].(*ssa.If)
+					if !ok || b == c.Block() || b == h || !h.Dominates(b) || !contentDependent(iff.Cond, 0) {
+						continue
+					}
+					if !reachAvoiding(b, c.Block(), noStop, bar) {
+						continue // not before the test in this iteration
+					}
+					for _, sc := range b.Succs {
+						if !reachAvoiding(sc, c.Block(), noStop, bar) {
+							bad = "branch at " + p.InstrPos(iff)
+						}
+					}
+				}
+			}
+			r.Check(bad == "", "S3", core.FuncName(f2), "covering-test-not-prefiltered", p.InstrPos(c), "every other pattern is tested with Pattern.Matches (only index conditions guard the test)", "the covering test is skipped depending on the patterns' text ("+bad+"): a pattern covered by one that the pre-filter excludes (e.g. a placeholder pattern) is subscribed redundantly and its requests are delivered twice")
+		}
+	}
 	for i, ss := range sites {
 		c := ss.inv
 		args := c.Common().Args
@@ -641,4 +679,45 @@ func errorReachesReturn(ex ssa.Value, fn *ssa.Function) bool {
 		}
 	}
 	return false
+}
+
+// contentDependent: the condition value depends on string data (an element,
+// a byte of a string, a call result other than len), as opposed to pure index
+// arithmetic.
+func contentDependent(v ssa.Value, depth int) bool {
+	if depth > 5 || v == nil {
+		return false
+	}
+	isStr := func(t types.Type) bool {
+		b, ok := t.Underlying().(*types.Basic)
+		return ok && (b.Kind() == types.String || b.Kind() == types.Uint8 || b.Kind() == types.UntypedString)
+	}
+	switch x := v.(type) {
+	case *ssa.Const:
+		return false
+	case *ssa.BinOp:
+		return contentDependent(x.X, depth+1) || contentDependent(x.Y, depth+1)
+	case *ssa.UnOp:
+		if x.Op == token.NOT || x.Op == token.SUB {
+			return contentDependent(x.X, depth+1)
+		}
+		return isStr(x.Type())
+	case *ssa.Phi:
+		for _, e := range x.Edges {
+			if e != v && contentDependent(e, depth+1) {
+				return true
+			}
+		}
+		return false
+	case *ssa.Call:
+		return core.CalleeName(x) != "builtin:len"
+	case *ssa.Index, *ssa.IndexAddr, *ssa.Lookup, *ssa.Slice:
+		return true
+	case *ssa.Extract:
+		if _, isNext := x.Tuple.(*ssa.Next); isNext {
+			return x.Index != 0 && isStr(x.Type())
+		}
+		return true
+	}
+	return isStr(v.Type())
 }
